@@ -862,7 +862,19 @@ pub fn c12_run() -> WorldOutcome {
         let na = 1 + kernel::choose(N, 20) as usize;
         let mut silent_both = true;
         let mut verdicts = Vec::new();
-        for s in a.iter().take(na) {
+        if !first_alt && kernel::choose(N, 3) == 1 {
+            // the first version's whole block is delivered (and reconstructed) before the conflict shows up
+            for slice_shreds in &blk.shreds {
+                for s in slice_shreds {
+                    let _ = rcv.ingest(wire::decode_shred(&wire::shred_bytes(s.as_shred())).expect("dec"), &kp.pk);
+                }
+            }
+            kernel::probe("c12_conflict_after_block_complete");
+        }
+        let complete_first = !first_alt && rcv.blocks.len() == 1;
+        // (after a complete delivery the first version is not offered again: the conflicting shred is
+        // the very next thing the receiver sees for that slice)
+        for s in a.iter().take(if complete_first { 0 } else { na }) {
             let r = rcv.ingest(wire::decode_shred(&wire::shred_bytes(s.as_shred())).expect("dec"), &kp.pk);
             verdicts.push(r);
         }
